@@ -582,6 +582,15 @@ def run(ctx):
     ]
     if batch.unused_imports_removed:
         assumptions.append("packages whose only compiler diagnostics were `imported and not used` were recompiled after deleting exactly those import lines")
+    # IR half of "nil checks generated for nullable path prefixes" (Builders.tla, NilChecksMC.tla): the real
+    # GenerateBuilderNilChecks of every language judged by TLC
+    from checks import nilchecks_part
+    part = nilchecks_part.run_part(ctx)
+    for sig, what, replay, key in part["fails"]:
+        ctx.fail(sig, what, replay, key=key)
+    cov.update(part["coverage"])
+    cov["states"] = cov.get("states", 0) + sum(r["distinct"] for r in part["tlc"])
+    cov["transitions"] = cov.get("transitions", 0) + sum(r["generated"] for r in part["tlc"])
     return ctx.finish("model_checking", cov, assumptions + batch.assumptions)
 
 
